@@ -1,3 +1,51 @@
-import Kio.Model.Records
+import Kio.Proofs.RecRead
+import Kio.Proofs.FloatSec
+import Kio.Model.Current
+/-!
+# C18 — reading a record batch is faithful and rejects damaged data
+-/
 namespace Kio.C18
+open Kio
+
+/-- **faithful read — partial**: a reference-encoded batch whose record timestamps are whole
+    seconds reads back exactly as encoded (header fields, offsets, keys, values, headers), and
+    leaves exactly the following bytes.  FULL STATEMENT (false of the code, see
+    `timestamp_ms_lost_witness` and known finding C18/I): the same for millisecond timestamps. -/
+theorem read_spec_partial (cfg : RecCfg) (b : Spec.WireBatch) (bs : Bytes)
+    (h : Spec.batchBytes b = some bs) (hts : ∀ r ∈ b.records, r.wholeSecond b.maxTimestamp)
+    (rest : Bytes) : readBatch cfg (bs ++ rest) = .ok (b.toRec bs, rest) :=
+  Kio.readBatch_spec_partial Kio.float_sec cfg b bs h hts rest
+
+/-- a batch is returned only when the magic byte is 2 -/
+theorem magic (cfg : RecCfg) (bs : Bytes) (b : RecordBatch) (rest : Bytes)
+    (h : readBatch cfg bs = .ok (b, rest)) : bs[16]? = some 2 :=
+  Kio.readBatch_magic cfg bs b rest h
+
+/-- **corruption**: changing any single byte (hence any single bit) from the CRC field to the
+    end of a reference-encoded batch makes reading fail -/
+theorem byte_corruption (cfg : RecCfg) (b : Spec.WireBatch) (bs : Bytes)
+    (h : Spec.batchBytes b = some bs) (i : Nat) (h17 : 17 ≤ i) (hi : i < bs.length)
+    (x : UInt8) (hx : x ≠ bs[i]) (rest : Bytes) :
+    ∃ e, readBatch cfg (bs.set i x ++ rest) = .error e :=
+  Kio.readBatch_byte_corruption cfg b bs h i h17 hi x hx rest
+
+/-- the CRC argument: any single-byte change changes CRC-32C -/
+theorem crc_byte_change (pre post : Bytes) (b b' : UInt8) (hb : b ≠ b') :
+    Crc.crc32c (pre ++ b :: post) ≠ Crc.crc32c (pre ++ b' :: post) :=
+  Crc.crc32c_byte_change pre post b b' hb
+
+/-- **truncation**: every strict prefix of a reference-encoded batch makes reading fail
+    (with the exact inner reads of the repaired reader; with the shipped non-exact reads a
+    CRC-colliding truncation was accepted) -/
+theorem truncation (b : Spec.WireBatch) (bs : Bytes) (h : Spec.batchBytes b = some bs)
+    (k : Nat) (hk : k < bs.length) : ∃ e, readBatch RecCfg.repaired (bs.take k) = .error e :=
+  Kio.readBatch_truncation b bs h k hk
+
+/-- the negation of the full-strength timestamp claim, with a witness: wire timestamp 1 ms is
+    read as 0 (known finding C18/I, `read_record` does `.replace(microsecond=0)`) -/
+theorem timestamp_ms_lost_witness : recordTimestamp 1 = .ok 0 ∧ recordTimestamp 1999 = .ok 1000000 := by
+  constructor <;> decide +kernel
+
+theorem current_repaired : RecCfg.current = RecCfg.repaired := rfl
+
 end Kio.C18
